@@ -150,12 +150,12 @@ static void part_b(Ctx& ctx, uint64_t N, const CpuCfg& cfg, bool thorough) {
           for (uint64_t rsl : SL) for (uint64_t asl : SL) {
             NormShape s; s.N = N; s.k = k; s.rs = rs; s.as = as; s.rsl = rsl; s.asl = asl; s.variant = 0; s.dataset = ds;
             run(s);
-            if (rsl == asl) { s.alias = 1; run(s); }
+            if (rsl == asl || rs <= 1) { s.alias = 1; run(s); }   // same pointer; with a one-limb (or empty) result its stride addresses nothing, so any stride is the same in-place call
           }
           for (uint64_t rsl : SL) {
             NormShape s; s.N = N; s.k = k; s.rs = rs; s.as = as; s.rsl = rsl; s.variant = 1; s.dataset = ds;
             run(s);
-            if (rsl == N) { s.alias = 1; run(s); }
+            if (rsl == N || rs <= 1) { s.alias = 1; run(s); }
           }
         }
         // all (begin,end,step) with begin<=end<=5, step 1..3, plus longer ranges and strides
@@ -167,7 +167,7 @@ static void part_b(Ctx& ctx, uint64_t N, const CpuCfg& cfg, bool thorough) {
             const uint64_t begin = rg[0], end = rg[1], step = rg[2];
             NormShape s; s.N = N; s.k = k; s.rs = rs; s.rsl = rsl; s.variant = 2; s.begin = begin; s.end = end; s.step = step; s.dataset = ds;
             run(s);
-            if (rsl == N && begin == 0 && step == 1) { s.alias = 1; run(s); }
+            if ((rsl == N && begin == 0 && step == 1) || (rs <= 1 && begin == 0)) { s.alias = 1; run(s); }   // one-limb result over limb 0 of its own source, any step
           }
       }
 }
